@@ -8,7 +8,9 @@ package main
 // engine checks this mechanically on the current source: in the whole package the variable is
 // only read (loads, and field/element addresses that are only loaded from); the only stores are
 // those of the synthetic package initializer; its address is never passed on. The initializer
-// must be a literal of constants (a struct literal of constants, or a constant). Units that read
+// must be a literal of constants (a struct literal of constants, or a constant), or a sentinel
+// error built by errors.New / fmt.Errorf (then only "not nil" is known). For an exported variable
+// the scan cannot see other packages: that they do not reassign it is recorded as an assumption. Units that read
 // the variable then know its value, also after calls with unknown effects.
 
 import (
@@ -21,6 +23,7 @@ import (
 )
 
 type constGlobal struct {
+	exported bool
 	g    *ssa.Global
 	init ast.Expr
 	info *types.Info
@@ -51,10 +54,7 @@ func (p *Prog) constGlobalInfo(pkgPath, name string) *constGlobal {
 		c.err = "no such package-level variable"
 		return c
 	}
-	if ast.IsExported(name) {
-		c.err = "exported variables can be assigned by other packages"
-		return c
-	}
+	c.exported = ast.IsExported(name)
 	c.g = g
 	// the initializer
 	for _, f := range pk.Syntax {
@@ -236,6 +236,20 @@ func (e *FnExec) constGlobalFacts(st *State) {
 	}
 	for _, c := range e.constGlobalsUsed {
 		et := c.g.Type().(*types.Pointer).Elem()
+		if c.exported {
+			e.assumed["exported package variable assumed never reassigned by other packages (checked inside its own package): "+c.g.Name()]++
+		}
+		// a sentinel error: errors.New / fmt.Errorf never return nil
+		if call, ok := ast.Unparen(c.init).(*ast.CallExpr); ok {
+			if sel, ok := call.Fun.(*ast.SelectorExpr); ok {
+				if id, ok := sel.X.(*ast.Ident); ok && ((id.Name == "errors" && sel.Sel.Name == "New") || (id.Name == "fmt" && sel.Sel.Name == "Errorf")) {
+					loc := e.val(st, c.g).T
+					e.addFact(st, Neq(ITag(e.load(st, loc, et)), IntLit(0)))
+					e.assumed["constant package variable (checked: never assigned outside its initializer): "+c.g.Name()]++
+					continue
+				}
+			}
+		}
 		v := constExprTerm(c.info, c.init, et)
 		if v == nil {
 			e.errf("constglobal %s: initializer is not a literal of constants", c.g.Name())
